@@ -8,7 +8,7 @@ use crate::wl::{self as gen_, asm};
 use crate::rng::{mix, tag, Rng};
 
 /// (family, weight, sections it uses with the main one first)
-pub const FAMILIES: &[(&str, u64)] = &[("aranges", 10), ("addr", 6), ("str", 4), ("pub", 6), ("line", 24), ("macros", 6), ("lists", 20), ("info", 40), ("cfi", 40)];
+pub const FAMILIES: &[(&str, u64)] = &[("aranges", 10), ("addr", 6), ("str", 4), ("pub", 6), ("line", 24), ("macros", 6), ("lists", 20), ("info", 40), ("cfi", 40), ("op", 30)];
 
 pub fn families_for(prop: &str) -> Vec<(&'static str, u64)> {
     match prop {
@@ -27,6 +27,7 @@ pub fn main_section(family: &str) -> &'static str {
         "lists" => "debug_rnglists",
         "info" => "debug_info",
         "cfi" => "eh_frame",
+        "op" => "expr",
         _ => "",
     }
 }
@@ -389,6 +390,44 @@ fn gen_family(rng: &mut Rng, c: &mut Case, fam: &str, be: bool) {
             c.put("eh_frame", eh);
             c.put("debug_frame", df);
             c.put("eh_frame_hdr", hdr);
+        }
+        "op" => {
+            let asz = c.knob("addr_size", 8) as u8;
+            let d64 = rng.chance(1, 4);
+            let version = *rng.pick(&[2i64, 3, 4, 4, 5, 5]);
+            c.set("d64", d64 as i64);
+            c.set("version", version);
+            c.set("world_seed", rng.below(1 << 30) as i64);
+            c.set("chaos", if rng.chance(1, 3) { rng.below(8) as i64 } else { 0 });
+            c.set("storage", *rng.pick(&[0i64, 0, 1, 2]));
+            c.set("max_iter", if rng.chance(1, 8) { rng.below(4) as i64 } else { 200 });
+            if rng.chance(1, 4) {
+                c.set("has_init", 1);
+                c.set("init", rng.interesting() as i64);
+            }
+            if rng.chance(1, 4) {
+                c.set("has_obj", 1);
+                c.set("obj", rng.interesting() as i64);
+            }
+            if rng.chance(1, 10) {
+                c.set("abandon", rng.below(4) as i64);
+            }
+            let p = crate::wl::expr::EncParams { be, addr_size: asz, d64, version: version as u16 };
+            let prog = crate::wl::expr::random_program(rng, 14, &p);
+            let mut bytes = crate::wl::expr::encode(&prog, &p);
+            note.push_str("asm");
+            if rng.chance(1, 12) {
+                bytes = gen_::noise(rng, 48);
+                note.push_str("+noise");
+            }
+            gen_::corrupt_some(rng, &mut bytes, &[], &mut note);
+            let nsubs = rng.usize(4);
+            c.set("nsubs", nsubs as i64);
+            for i in 0..nsubs {
+                let sp = crate::wl::expr::random_program(rng, 6, &p);
+                c.put(crate::drv::op::SUB_NAMES[i], crate::wl::expr::encode(&sp, &p));
+            }
+            c.put("expr", bytes);
         }
         _ => panic!("gen_family: {}", fam),
     }
